@@ -319,21 +319,8 @@ def xray_tie(ctx, model, cfg, A, res):
 # streams
 
 
-KNOWN_DERIVED = "linop-derived-adj-dtypes"
-KNOWN_CONVOLVE = "convolve-derived-adj"
-KNOWN_CIRC_REAL = "circconv-adj-real-input"
-KNOWN_XRAY_DT = "xray2d-backproject-dtype"
+KNOWN_MIXED = "mixed-operand-dtypes"
 DTYPE_TAGS = {"adj-accepts", "adj-accepts-out", "eval-dtype", "eval-clinear", "adj-clinear"}
-
-
-def _has_circ_complex_on_real(cfg):
-    if isinstance(cfg, dict):
-        if cfg.get("cls") == "CircularConvolve" and G.cplx(cfg["hdt"]) and not G.cplx(cfg["idt"]):
-            return True
-        return any(_has_circ_complex_on_real(v) for v in cfg.values())
-    if isinstance(cfg, list):
-        return any(_has_circ_complex_on_real(v) for v in cfg)
-    return False
 
 
 def classify_known(ctx, model, cfg, A, res, view=None):
@@ -342,25 +329,16 @@ def classify_known(ctx, model, cfg, A, res, view=None):
     tags = {t for t, _ in res["fails"]}
     if cfg["cls"] == "AbelTransform" and tags == {"adjoint"} and int(G._t(cfg["ishape"])[1]) % 2 == 1:
         return KNOWN_ABEL
-    if cfg["cls"] == "Derived":
-        form = cfg["form"]
+    if cfg["cls"] == "Derived" and cfg["form"] in ("add", "sub") and view is None:
         with warnings.catch_warnings():
             warnings.simplefilter("ignore")
             a = G.build(cfg["a"])
-            b = G.build(cfg["b"]) if "b" in cfg else None
-        conv = lambda o: type(o).__name__ in ("Convolve", "ConvolveByX")
-        c = cfg.get("c")
-        if form in ("smul", "rsmul", "sdiv") and isinstance(c, (list, tuple)) and c[1] != 0 and not D.is_complex(a.input_dtype) \
-                and tags <= DTYPE_TAGS | {"adjoint"}:
-            return KNOWN_CONVOLVE if conv(a) else KNOWN_DERIVED
-        if form in ("add", "sub") and tags <= DTYPE_TAGS | {"adjoint"} and (
-            np.dtype(a.input_dtype) != np.dtype(b.input_dtype) or np.dtype(a.output_dtype) != np.dtype(b.output_dtype)
-        ):
-            return KNOWN_CONVOLVE if (conv(a) and conv(b)) else KNOWN_DERIVED
-    if _has_circ_complex_on_real(cfg) and (cfg["cls"] == "Derived" or view in ("T", "H", "gram")) and tags <= DTYPE_TAGS:
-        return KNOWN_CIRC_REAL
-    if "XRayTransform2D" in json.dumps(cfg) and (cfg["cls"] == "Derived" or view in ("T", "H", "gram")) and tags == {"adj-accepts-out"}:
-        return KNOWN_XRAY_DT
+            b = G.build(cfg["b"])
+        mixed = np.dtype(a.input_dtype) != np.dtype(b.input_dtype) or np.dtype(a.output_dtype) != np.dtype(b.output_dtype)
+        # the sum of operators on different spaces: its adj raises the dtype error of one operand (or, where the
+        # guard happens to pass, mixes real and complex parts)
+        if mixed and tags <= DTYPE_TAGS | {"adjoint"} and tags & DTYPE_TAGS:
+            return KNOWN_MIXED
     return None
 
 
@@ -743,12 +721,8 @@ def findings(ctx, model):
         KNOWN_XRAY3: {"cls": "XRayTransform3D", "ishape": [2, 2, 2], "det": [2, 2], "angles": [0.0], "seq": "Z", "shift": [1.25, -0.75]},
         KNOWN_ABEL: {"cls": "AbelTransform", "ishape": [3, 3]},
     }
-    circ_c_r = {"cls": "CircularConvolve", "hshape": [2], "ishape": [3], "ndims": 1, "hdt": G.C128, "idt": G.R64}
     fdc = {"cls": "SingleAxisFiniteDifference", "ishape": [3], "axis": -1, "prepend": None, "append": None, "circular": True, "dt": G.R64}
-    wit[KNOWN_DERIVED] = {"cls": "Derived", "form": "smul", "c": [0.0, 1.0], "a": G._seeded(dict(fdc))}
-    wit[KNOWN_CONVOLVE] = {"cls": "Derived", "form": "smul", "c": [0.0, 1.0], "a": G._seeded({"cls": "Convolve", "hshape": [2], "ishape": [3], "mode": "same", "hdt": G.R64, "idt": G.R64})}
-    wit[KNOWN_CIRC_REAL] = {"cls": "Derived", "form": "H", "a": G._seeded(dict(circ_c_r))}
-    wit[KNOWN_XRAY_DT] = {"cls": "Derived", "form": "H", "a": G._seeded({"cls": "XRayTransform2D", "ishape": [3, 3], "angles": [0.3, 1.1]})}
+    wit[KNOWN_MIXED] = {"cls": "Derived", "form": "add", "a": G._seeded(dict(fdc)), "b": G._seeded({"cls": "MatrixOperator", "m": 3, "n": 3, "dt": G.C128, "cols": 0})}
     for fid, cfg in wit.items():
         if not ctx.is_known(fid):
             continue
